@@ -178,7 +178,8 @@ Section WithMatch.
     /\ ( (* success *)
          (prep_fails b = false /\ plan_acts p = add AFwd acts /\ plan_reason p = rsn
             /\ has_tx (plan_pre p) = true
-            /\ exists k, send_path a (b_dst b) (b_size b) (has_flag (b_flags b) FLAG_NO_FRAGMENT) (is_frag b) (b_cached b) = SentWhole k)
+            /\ exists k, send_path a (b_dst b) (b_size b) (has_flag (b_flags b) FLAG_NO_FRAGMENT) (is_frag b) (b_cached b) = SentWhole k
+                         /\ plan_pre p = [EvTx b (plan_cur p) k])
          \/ (* failure *)
          (plan_acts p = add ADel acts /\ plan_reason p = Some fwd_fail_reason
             /\ (has_tx (plan_pre p) = true -> b_cached b = false)
@@ -201,7 +202,7 @@ Section WithMatch.
         * intros H. apply N.eqb_eq in T0. contradiction.
         * intros e [E|[]]; subst; reflexivity.
         * intros s r k0 [E|[]]; discriminate.
-        * left. repeat split; auto. exists k. reflexivity.
+        * left. repeat split; auto. exists k. split; reflexivity.
       + repeat split; auto.
         * intros H. apply N.eqb_eq in T0. contradiction.
         * intros e [E|[E|[]]]; subst; reflexivity.
@@ -229,7 +230,7 @@ Section WithMatch.
       + repeat split; auto.
         * intros e [E|[]]; subst; reflexivity.
         * intros s r k0 [E|[]]; discriminate.
-        * left. repeat split; auto. exists k. reflexivity.
+        * left. repeat split; auto. exists k. split; reflexivity.
       + repeat split; auto.
         * intros e [E|[E|[]]]; subst; reflexivity.
         * intros s r k0 [E|[E|[]]]; discriminate.
@@ -248,7 +249,7 @@ Section WithMatch.
     has_tx (plan_pre (fwd_plan a b acts rsn)) = negb (prep_fails b) && tx_ok a b.
   Proof.
     destruct (fwd_plan_spec a b acts rsn) as (_ & _ & _ & _ & _ & _ & _ & _ & _ & _ & _ & [H|H]).
-    - destruct H as (Hp & _ & _ & Ht & k & Hs). rewrite Ht, Hp. unfold tx_ok. rewrite Hs. reflexivity.
+    - destruct H as (Hp & _ & _ & Ht & k & Hs & _). rewrite Ht, Hp. unfold tx_ok. rewrite Hs. reflexivity.
     - destruct H as (_ & _ & _ & Ht). exact Ht.
   Qed.
 
@@ -398,24 +399,200 @@ Section WithMatch.
         apply finish_report in H. destruct H as [_ H]. rewrite Hnode, Hn in H.
         eexists _, (plan_cur (fwd_plan a1 b acts rsn)), (plan_acts (fwd_plan a1 b acts rsn)), (plan_reason (fwd_plan a1 b acts rsn)).
         split; [exact H|]. repeat (split; [assumption|]).
-        destruct Hcase as [(Hp & Ha & Hr & Htx & j & Hsp)|(Ha & Hr & Hc & Htx)].
+        destruct Hcase as [(Hp & Ha & Hr & Htx & j & Hsp & Hpre)|(Ha & Hr & Hc & Htx)].
         * right; left. repeat split; auto.
           -- rewrite <- (tx_ok_tx a a1 b Ht). unfold tx_ok. rewrite Hsp. reflexivity.
           -- intros Hcached. exists j. apply in_or_app. right. apply in_or_app. right. rewrite Hd. cbn [snd].
-             apply in_or_app. left.
-             (* the pre-events of a successful plan are exactly the transmission *)
-             unfold plan_pre, plan_cur, BpAgent.fwd_plan. unfold prep_fails in Hp.
-             apply orb_false_iff in Hp. destruct Hp as [P1 P2]. rewrite P1.
-             destruct (b_time b =? 0) eqn:T0; cbn [negb andb] in *.
-             ++ rewrite (send_path_tx (tick a1) a1) by reflexivity.
-                change (b_dst (set_ts b (a_now a1) (a_tsn a1))) with (b_dst b).
-                change (b_size (set_ts b (a_now a1) (a_tsn a1))) with (b_size b).
-                change (b_flags (set_ts b (a_now a1) (a_tsn a1))) with (b_flags b).
-                change (is_frag (set_ts b (a_now a1) (a_tsn a1))) with (is_frag b).
-                change (b_cached (set_ts b (a_now a1) (a_tsn a1))) with (b_cached b).
-                rewrite Hsp. cbn. left. reflexivity.
-             ++ rewrite P2. rewrite (send_path_tx (tick a1) a1) by reflexivity. rewrite Hsp. cbn. left. reflexivity.
+             apply in_or_app. left. rewrite Hpre. left. reflexivity.
         * right; right. repeat split; auto.
           intros Hx. apply Hc. rewrite Htx. rewrite (tx_ok_tx a a1 b Ht). exact Hx.
+  Qed.
+
+  (** ** One call of [recv_bundle] *)
+
+  Lemma recv_core_rejected a b : accepted a b = false -> recv_core a b = (a, [], None).
+  Proof. intros H. unfold BpAgent.recv_core. rewrite H. reflexivity. Qed.
+
+  Definition seen_add (a : agent) (b : bundle) : agent := set_seen a (a_seen a ++ [ident_of b]).
+
+  Lemma recv_core_accepted a b :
+    accepted a b = true ->
+    recv_core a b =
+    if mem ADlv (route_actions a b) && is_frag b then
+      match snd (reasm_step (a_reasm a) b) with
+      | RPending => (set_reasm (seen_add a b) (fst (reasm_step (a_reasm a) b)), [], None)
+      | RDone rb => (set_reasm (seen_add a b) (fst (reasm_step (a_reasm a) b)), [], Some rb)
+      | RGlitch =>
+        (fst (final (set_reasm (seen_add a b) (fst (reasm_step (a_reasm a) b))) b (route_actions a b) None false),
+         snd (final (set_reasm (seen_add a b) (fst (reasm_step (a_reasm a) b))) b (route_actions a b) None false),
+         None)
+      end
+    else
+      (fst (final (seen_add a b) b (fst (sec_step b (route_actions a b))) (snd (sec_step b (route_actions a b)))
+                  (mem ADlv (fst (sec_step b (route_actions a b))))),
+       snd (final (seen_add a b) b (fst (sec_step b (route_actions a b))) (snd (sec_step b (route_actions a b)))
+                  (mem ADlv (fst (sec_step b (route_actions a b))))),
+       None).
+  Proof.
+    intros H. unfold BpAgent.recv_core. rewrite H. cbn [negb].
+    change (BpAgent.route_actions matches (set_seen a (a_seen a ++ [ident_of b])) b) with (route_actions a b).
+    change (a_reasm (set_seen a (a_seen a ++ [ident_of b]))) with (a_reasm a).
+    fold (seen_add a b).
+    destruct (mem ADlv (route_actions a b) && is_frag b).
+    - destruct (reasm_step (a_reasm a) b) as [rs res]. cbn [fst snd].
+      destruct res; try reflexivity.
+      destruct (final (set_reasm (seen_add a b) rs) b (route_actions a b) None false). reflexivity.
+    - destruct (final (seen_add a b) b (fst (sec_step b (route_actions a b))) (snd (sec_step b (route_actions a b)))
+                      (mem ADlv (fst (sec_step b (route_actions a b))))). reflexivity.
+  Qed.
+
+  Lemma recv_core_seen a b :
+    a_seen (fst (fst (recv_core a b))) = if accepted a b then a_seen a ++ [ident_of b] else a_seen a.
+  Proof.
+    destruct (accepted a b) eqn:H.
+    - rewrite recv_core_accepted by exact H.
+      destruct (mem ADlv (route_actions a b) && is_frag b).
+      + destruct (snd (reasm_step (a_reasm a) b)); cbn [fst]; try reflexivity.
+        rewrite final_seen. reflexivity.
+      + cbn [fst]. rewrite final_seen. reflexivity.
+    - rewrite recv_core_rejected by exact H. reflexivity.
+  Qed.
+
+  Lemma recv_core_silent a b : accepted a b = false -> snd (fst (recv_core a b)) = [] /\ snd (recv_core a b) = None /\ fst (fst (recv_core a b)) = a.
+  Proof. intros H. rewrite recv_core_rejected by exact H. auto. Qed.
+
+  Lemma recv_core_reinject_silent a b rb : snd (recv_core a b) = Some rb -> snd (fst (recv_core a b)) = [].
+  Proof.
+    destruct (accepted a b) eqn:H.
+    - rewrite recv_core_accepted by exact H.
+      destruct (mem ADlv (route_actions a b) && is_frag b).
+      + destruct (snd (reasm_step (a_reasm a) b)); cbn [fst snd]; intros E; try discriminate; reflexivity.
+      + cbn [snd]. discriminate.
+    - rewrite recv_core_rejected by exact H. reflexivity.
+  Qed.
+
+  Lemma recv_core_subject a b e : In e (snd (fst (recv_core a b))) -> ev_subject e = b.
+  Proof.
+    destruct (accepted a b) eqn:H.
+    - rewrite recv_core_accepted by exact H.
+      destruct (mem ADlv (route_actions a b) && is_frag b).
+      + destruct (snd (reasm_step (a_reasm a) b)); cbn [fst snd]; try (intros []).
+        apply final_subject.
+      + cbn [fst snd]. apply final_subject.
+    - rewrite recv_core_rejected by exact H. intros [].
+  Qed.
+
+  Lemma seen_mono a b i : In i (a_seen a) -> In i (a_seen (fst (fst (recv_core a b)))).
+  Proof.
+    intros H. rewrite recv_core_seen. destruct (accepted a b); [apply in_or_app; left|]; exact H.
+  Qed.
+
+  Lemma accepted_not_seen a b : In (ident_of b) (a_seen a) -> accepted a b = false.
+  Proof.
+    intros H. unfold accepted. apply seen_existsb_In in H. rewrite H. cbn. rewrite andb_false_r. reflexivity.
+  Qed.
+
+  (** ** At most once *)
+
+  Definition nonsilent (p : proc) : bool := negb (match snd p with [] => true | _ => false end).
+
+  Lemma acts_on_app i x y : acts_on i (x ++ y) = acts_on i x ++ acts_on i y.
+  Proof. unfold acts_on. apply filter_app. Qed.
+
+  (** The state after [recv] and its processings, spelled out. *)
+  Lemma recv_eq a b :
+    recv a b =
+    match snd (recv_core a b) with
+    | None => (fst (fst (recv_core a b)), [(b, snd (fst (recv_core a b)))])
+    | Some rb =>
+      (fst (fst (recv_core (fst (fst (recv_core a b))) rb)),
+       [(b, snd (fst (recv_core a b))); (rb, snd (fst (recv_core (fst (fst (recv_core a b))) rb)))])
+    end.
+  Proof.
+    unfold BpAgent.recv. destruct (recv_core a b) as [[a1 ev1] re]. cbn [fst snd].
+    destruct re as [rb|]; [|reflexivity].
+    destruct (recv_core a1 rb) as [[a2 ev2] re2]. reflexivity.
+  Qed.
+
+  Lemma recv_seen_mono a b i : In i (a_seen a) -> In i (a_seen (fst (recv a b))).
+  Proof.
+    intros H. rewrite recv_eq. destruct (snd (recv_core a b)); cbn [fst].
+    - apply seen_mono. apply seen_mono. exact H.
+    - apply seen_mono. exact H.
+  Qed.
+
+  (** A processing with events is of an accepted bundle, whose identity is in the seen list afterwards. *)
+  Lemma recv_core_acted a b :
+    snd (fst (recv_core a b)) <> [] -> ~ In (ident_of b) (a_seen a) /\ In (ident_of b) (a_seen (fst (fst (recv_core a b)))).
+  Proof.
+    intros H. destruct (accepted a b) eqn:Hacc.
+    - split.
+      + intros Hin. apply accepted_not_seen in Hin. congruence.
+      + rewrite recv_core_seen, Hacc. apply in_or_app. right. left. reflexivity.
+    - exfalso. apply H. apply recv_core_silent. exact Hacc.
+  Qed.
+
+  Lemma recv_seen_silent a b i : In i (a_seen a) -> acts_on i (snd (recv a b)) = [].
+  Proof.
+    intros Hin. rewrite recv_eq.
+    assert (S1 : forall a' b', In i (a_seen a') -> ident_eqb (ident_of b') i = true -> snd (fst (recv_core a' b')) = []).
+    { intros a' b' Hi He. apply ident_eqb_eq in He. subst i.
+      apply recv_core_silent. apply accepted_not_seen. exact Hi. }
+    destruct (snd (recv_core a b)) as [rb|]; cbn [snd acts_on filter fst].
+    - destruct (ident_eqb (ident_of b) i) eqn:E1.
+      + rewrite (S1 a b Hin E1). cbn.
+        destruct (ident_eqb (ident_of rb) i) eqn:E2; [|reflexivity].
+        rewrite (S1 _ rb (seen_mono a b i Hin) E2). reflexivity.
+      + cbn. destruct (ident_eqb (ident_of rb) i) eqn:E2; [|reflexivity].
+        rewrite (S1 _ rb (seen_mono a b i Hin) E2). reflexivity.
+    - destruct (ident_eqb (ident_of b) i) eqn:E1; [|reflexivity].
+      rewrite (S1 a b Hin E1). reflexivity.
+  Qed.
+
+  Lemma run_seen_silent hist : forall a i, In i (a_seen a) -> acts_on i (snd (run a hist)) = [].
+  Proof.
+    induction hist as [|b t IH]; intros a i Hin; cbn [BpAgent.run]; [reflexivity|].
+    destruct (recv a b) as [a1 p1] eqn:E1. destruct (run a1 t) as [a2 p2] eqn:E2. cbn [snd].
+    rewrite acts_on_app.
+    replace p1 with (snd (recv a b)) by (rewrite E1; reflexivity).
+    rewrite (recv_seen_silent a b i Hin). cbn [app].
+    replace p2 with (snd (run a1 t)) by (rewrite E2; reflexivity).
+    apply IH. replace a1 with (fst (recv a b)) by (rewrite E1; reflexivity). apply recv_seen_mono. exact Hin.
+  Qed.
+
+  (** One [recv] acts on an identity at most once, and then that identity is in the seen list. *)
+  Lemma recv_once a b i :
+    (length (acts_on i (snd (recv a b))) <= 1)%nat
+    /\ (acts_on i (snd (recv a b)) <> [] -> In i (a_seen (fst (recv a b)))).
+  Proof.
+    rewrite recv_eq. destruct (snd (recv_core a b)) as [rb|] eqn:Hre; cbn [snd fst].
+    - pose proof (recv_core_reinject_silent a b rb Hre) as Hs. rewrite Hs.
+      unfold acts_on. cbn [filter fst snd]. rewrite andb_false_r.
+      destruct (ident_eqb (ident_of rb) i) eqn:E2; cbn [andb].
+      + destruct (snd (fst (recv_core (fst (fst (recv_core a b))) rb))) as [|e l] eqn:Hev; cbn [negb length].
+        * split; [lia|intros H; exfalso; apply H; reflexivity].
+        * split; [cbn; lia|]. intros _. apply ident_eqb_eq in E2. subst i.
+          apply recv_core_acted. rewrite Hev. discriminate.
+      + split; [cbn; lia|intros H; exfalso; apply H; reflexivity].
+    - unfold acts_on. cbn [filter fst snd].
+      destruct (ident_eqb (ident_of b) i) eqn:E1; cbn [andb].
+      + destruct (snd (fst (recv_core a b))) as [|e l] eqn:Hev; cbn [negb length].
+        * split; [lia|intros H; exfalso; apply H; reflexivity].
+        * split; [cbn; lia|]. intros _. apply ident_eqb_eq in E1. subst i.
+          apply recv_core_acted. rewrite Hev. discriminate.
+      + split; [cbn; lia|intros H; exfalso; apply H; reflexivity].
+  Qed.
+
+  Theorem at_most_once hist : forall a i, (length (acts_on i (snd (run a hist))) <= 1)%nat.
+  Proof.
+    induction hist as [|b t IH]; intros a i; cbn [BpAgent.run]; [cbn; lia|].
+    destruct (recv a b) as [a1 p1] eqn:E1. destruct (run a1 t) as [a2 p2] eqn:E2. cbn [snd].
+    rewrite acts_on_app, app_length.
+    destruct (recv_once a b i) as [Hlen Hin]. rewrite E1 in Hlen, Hin. cbn [fst snd] in Hlen, Hin.
+    destruct (acts_on i p1) as [|x l] eqn:Ha.
+    - cbn [length]. specialize (IH a1 i). rewrite E2 in IH. exact IH.
+    - assert (Hs : In i (a_seen a1)) by (apply Hin; discriminate).
+      pose proof (run_seen_silent t a1 i Hs) as Hz. rewrite E2 in Hz. cbn [snd] in Hz. rewrite Hz.
+      cbn [length] in *. lia.
   Qed.
 End WithMatch.
